@@ -323,6 +323,12 @@ fn str_prefix(ost: Option<String>) -> Result<Option<Prefix>, Error> {
                     .parse()
                     .map_err(|x| Error::InvalidConfig(format!("{}", x)))?;
                 match str_ip(Some(sections[0].into())) {
+                    Ok(Some(std::net::IpAddr::V4(_))) if prefixlen > 32 => Err(
+                        Error::InvalidConfig(format!("Prefix length too long in '{}'", st)),
+                    ),
+                    Ok(Some(std::net::IpAddr::V6(_))) if prefixlen > 128 => Err(
+                        Error::InvalidConfig(format!("Prefix length too long in '{}'", st)),
+                    ),
                     Ok(Some(std::net::IpAddr::V4(ip4))) => Ok(Some(Prefix::V4(Prefix4 {
                         addr: ip4,
                         prefixlen,
@@ -356,6 +362,10 @@ fn str_prefix4(ost: Option<String>) -> Result<Option<Prefix4>, Error> {
                     .parse()
                     .map_err(|x| Error::InvalidConfig(format!("{}", x)))?;
                 match str_ip4(Some(sections[0].into())) {
+                    Ok(Some(_)) if prefixlen > 32 => Err(Error::InvalidConfig(format!(
+                        "Prefix length too long in '{}'",
+                        st
+                    ))),
                     Ok(Some(ip4)) => Ok(Some(Prefix4 {
                         addr: ip4,
                         prefixlen,
@@ -385,6 +395,10 @@ fn str_prefix6(ost: Option<String>) -> Result<Option<Prefix6>, Error> {
                     .parse()
                     .map_err(|x| Error::InvalidConfig(format!("{}", x)))?;
                 match str_ip6(Some(sections[0].into())) {
+                    Ok(Some(_)) if prefixlen > 128 => Err(Error::InvalidConfig(format!(
+                        "Prefix length too long in '{}'",
+                        st
+                    ))),
                     Ok(Some(ip6)) => Ok(Some(Prefix6 {
                         addr: ip6,
                         prefixlen,
